@@ -851,7 +851,8 @@ def random_walk(ctx, cvspec, steps, named=None):
                 return anyp()
             c = [j for j in pts if w.tags[j] == w.tags[i]]
             return rng.choice(c) if c and rng.random() < 0.88 else rng.choice(ids + ["inf"])
-        ks = [0, 1, 2, 3, -1, -2, n - 1, n, n + 1, 2 * n + 1, rng.randrange(-3 * n, 3 * n), rng.randrange(1, n)]
+        ks = [0, 1, 2, 3, -1, -2, n - 1, n, n + 1, 2 * n + 1, rng.randrange(-3 * n, 3 * n), rng.randrange(1, n),
+              6 * n + 1, -(7 * n + 2), rng.randrange(-40 * n, 40 * n)]   # beyond a table's reach (about 5.3n) too
         if r < 0.62 or not pts:
             o = rng.choice(pt_ops)
             if o in ("x", "y", "order", "neg", "dbl", "raw"):
